@@ -20,11 +20,23 @@ from .oblig import prove_equal, prove_valid, reach
 PID = "C05"
 
 
-def float_update(p, cse, key, e, k=None):
+def warm_key(p, key):
+    others = [k2 for k2 in p.s_sensors() if k2 != key]
+    return others[0] if others else key
+
+
+def float_update(p, cse, key, e, k=None, warm=True):
     def go():
         with quiet():
             pn, sn = pyh.noise_vals_from_env(p, e)
             ekf = pyh.build_ekf_float(p, e, cse=cse, pn=pn, sn=sn, k=k)
+            if warm and k is None:
+                # history dimension: an earlier update (other sensor, other inputs) on the same filter object
+                wk = warm_key(p, key)
+                st0 = ekf.State(**{s: float(e.get(s + "__2", 0.375)) for s in p.state})
+                cov0 = ekf.Covariance.from_data(pyh.float_cov(p.state, {f"P_{a}_{b}": e.get(f"P2_{a}_{b}", 1.0 if a == b else 0.125) for a in p.s_state() for b in p.s_state()}))
+                rd0 = ekf.make_reading(wk, **{r: float(e.get(f"z2_{wk}_{r}", 0.625)) for r in p.sensors[wk]})
+                ekf.sensor_model(st0, cov0, sensor_key=wk, sensor_reading=rd0)
             st = ekf.State(**{s: float(e[s]) for s in p.state})
             cov = ekf.Covariance.from_data(pyh.float_cov(p.state, e))
             rd = ekf.make_reading(key, **{r: float(e[f"z_{key}_{r}"]) for r in p.sensors[key]})
@@ -110,6 +122,15 @@ def task(p, cse, key, k, tier, seed):
     def harness():
         with installed(), quiet():
             ekf = pyh.build_ekf_sym(p, env, pn, sn, cse=cse, k=k)
+            if k is None:
+                # history dimension: an earlier update (other sensor, independent symbolic inputs) on the same object
+                wk = warm_key(p, key)
+                env2 = pyh.second_env(env, keep=p.calibration)
+                P2, _ = pyh.sym_cov(p.state, prefix="P2")
+                st0 = ekf.State(**pyh.sym_state_kwargs(p.state, env2))
+                cov0 = ekf.Covariance.from_data(P2)
+                rd0 = ekf.make_reading(wk, **{r: SymReal(z3.Real(f"z2_{wk}_{r}")) for r in p.sensors[wk]})
+                ekf.sensor_model(st0, cov0, sensor_key=wk, sensor_reading=rd0)
             st = ekf.State(**pyh.sym_state_kwargs(p.state, env))
             cov = ekf.Covariance.from_data(Psym.copy())
             rd = ekf.make_reading(key, **{r: SymReal(zin[r]) for r in rs})
@@ -140,10 +161,10 @@ def task(p, cse, key, k, tier, seed):
         return part.d
     leaf = acc[0]
     r, S, innov, st, cov = leaf.value
-    if len(leaf.cuts) != 1:
-        part.harness_error(f"{key_base}: expected one inverse cut, got {len(leaf.cuts)}")
+    if len(leaf.cuts) != (2 if k is None else 1):
+        part.harness_error(f"{key_base}: unexpected number of inverse cuts: {len(leaf.cuts)}")
         return part.d
-    cut = leaf.cuts[0]
+    cut = leaf.cuts[-1]
     Xc = pyh.mat_z3(cut["res"])
     path_assumes = assumes + leaf.pc
     reach(part, key_base + "/accept-path-sat", path_assumes + pyh.diag_dominant(p.state))
